@@ -192,6 +192,7 @@ class VirtRig:
         self.prior = prior or []
         self.progress = progress     # observe the progress bars (a recording stand-in for labtech.lab.tqdm)
         self.tnames = None
+        self.dep_order = None
         self.int_lines = int_lines   # line-boundary injection: list of global line-event indices
         self.line_count = 0
         self.in_worker = 0
@@ -473,6 +474,14 @@ class VirtRig:
         built = D.Built(cfg, self.shape_seed, beh=self.beh)
         req = built.requested()
         if not cfg.get('twins') and not cfg.get('mainmod'):
+            # the order in which a task's parameters mention its dependencies (an input the configuration leaves open)
+            self.dep_order = []
+            for t in range(1, cfg['n'] + 1):
+                o, seen = built.make(t), []
+                for d in U.walk_deps(o.a) + U.walk_deps(o.b):
+                    if d.tid not in seen:
+                        seen.append(d.tid)
+                self.dep_order.append(seen)
             by_type = {}
             for t in range(1, cfg['n'] + 1):
                 by_type.setdefault(cfg['typ'][t - 1], built.cls(t))
